@@ -1,0 +1,51 @@
+// Verification hooks. Compiled only with `--cfg resvg_verif`; never part of a normal build.
+
+//! Trace of layer / filter geometry decisions and re-exports of private pixel kernels.
+
+use std::cell::RefCell;
+
+thread_local! {
+    static TRACE: RefCell<Option<Vec<String>>> = RefCell::new(None);
+}
+
+/// Starts recording trace events on the current thread.
+pub fn start_trace() {
+    TRACE.with(|t| *t.borrow_mut() = Some(Vec::new()));
+}
+
+/// Stops recording and returns the recorded events (one JSON object per event).
+pub fn take_trace() -> Vec<String> {
+    TRACE.with(|t| t.borrow_mut().take().unwrap_or_default())
+}
+
+pub(crate) fn trace(f: impl FnOnce() -> String) {
+    TRACE.with(|t| {
+        if let Some(v) = t.borrow_mut().as_mut() {
+            v.push(f());
+        }
+    });
+}
+
+pub(crate) fn num(x: f32) -> String {
+    if x.is_finite() {
+        format!("{:?}", x as f64)
+    } else {
+        format!("\"{}\"", x)
+    }
+}
+
+pub(crate) fn rect(r: tiny_skia::Rect) -> String {
+    format!("[{},{},{},{}]", num(r.x()), num(r.y()), num(r.width()), num(r.height()))
+}
+
+pub(crate) fn irect(r: tiny_skia::IntRect) -> String {
+    format!("[{},{},{},{}]", r.x(), r.y(), r.width(), r.height())
+}
+
+pub(crate) fn ts(t: tiny_skia::Transform) -> String {
+    format!("[{},{},{},{},{},{}]", num(t.sx), num(t.ky), num(t.kx), num(t.sy), num(t.tx), num(t.ty))
+}
+
+pub use crate::filter::verif as kernels;
+pub use crate::geom::fit_to_rect;
+pub use crate::render::convert_blend_mode;
